@@ -189,7 +189,9 @@ class Ctx:
         self.stats = dict.fromkeys(
             ["mode_switch", "alias_now", "late_join", "del_then_train", "del_shared_then_train", "two_on_cell",
              "tstep", "tstep_value", "train_steps", "dropped", "gc_checked", "skipped", "shadow_skipped",
-             "unique_replace", "clears", "obs", "updates"], 0)
+             "unique_replace", "clears", "obs", "updates", "empty_add", "rereg", "readd", "eval_add"], 0)
+        self.last = "construct"
+        self.probe_spec = {}  # (trainer, cell name, probe name) -> (post, k, g) of the request that created it
         self.pending_del = False  # a deletion happened, no training step of a survivor yet
         self.pending_del_shared = False
         self.feedback_prev = None
@@ -197,7 +199,7 @@ class Ctx:
     def info(self, **kw):
         w = self.world
         d = {"shadowed": w.shadowed(),
-             "op": self.what.split(" ")[1] if " " in self.what else self.what}
+             "op": self.last}  # the elementary action performed last (macros consist of several)
         d.update(kw)
         return d
 
@@ -358,6 +360,7 @@ def _register(ctx, idx, key, hp):
         im.trainers[idx].register_cell(cname, im.cell(key), **_cell_kwargs(tm.ttype, hp))
     w.register_cell(idx, cname, key, hp)
     e = tm.cells[cname]
+    e.required = {s["name"] for s in M.trainer_monitors(tm.ttype, hp, DT, key[0], key[1])}
     late = False
     for s in M.trainer_monitors(tm.ttype, hp, DT, key[0], key[1]):
         sib = (e,) + tuple(s["sib"]) if s["sib"] else None
@@ -382,9 +385,92 @@ def _would_shadow(ctx, idx, key, names):
     return False
 
 
+def _del_cell(ctx, idx, cname):
+    w, im = ctx.world, ctx.impl
+    ctx.last = "delc"
+    before = w.flags["alias_del"]
+    w.flags["alias_del"] = False
+    with impl(ctx.what):
+        im.trainers[idx].del_cell(cname)
+    w.del_cell(idx, cname)
+    ctx.pending_del = True
+    ctx.pending_del_shared = ctx.pending_del_shared or w.flags["alias_del"]
+    w.flags["alias_del"] = w.flags["alias_del"] or before
+
+
+def _del_mon(ctx, idx, cname, mname):
+    w, im = ctx.world, ctx.impl
+    ctx.last = "delm"
+    before = w.flags["alias_del"]
+    w.flags["alias_del"] = False
+    with impl(ctx.what):
+        im.trainers[idx].del_monitor(cname, mname)
+    w.del_monitor(idx, cname, mname)
+    ctx.pending_del = True
+    ctx.pending_del_shared = ctx.pending_del_shared or w.flags["alias_del"]
+    w.flags["alias_del"] = w.flags["alias_del"] or before
+
+
+def _add_probe(ctx, idx, cname, pname, post, k, unique, g, hold):
+    from inferno.observe import PassthroughReducer, StateMonitor
+
+    w, im = ctx.world, ctx.impl
+    ctx.last = "addm"
+    e = w.trainers[idx].cells[cname]
+    attr = "neuron.spike" if post else im.pre_attr
+    source = ("n", e.cellkey[1]) if post else ("c", e.cellkey[0])
+    if unique and pname in e.mons:
+        # unique=True replaces the entry; the docs do not say that the replaced object is detached, and the
+        # property speaks about registered monitors only: the user does not keep holding a replaced object
+        # (whichever cell it was first obtained through), so nothing is asserted about it
+        old_uid = e.mons[pname].uid
+        for hk in [hk for hk in im.held if hk[3] == old_uid]:
+            del im.held[hk]
+        ctx.stats["unique_replace"] += 1
+    ctor = StateMonitor.partialconstructor(
+        reducer=PassthroughReducer(DT, duration=k * DT, inclusive=True),
+        as_prehook=False, train_update=True, eval_update=False, prepend=True)
+    with impl(ctx.what):
+        obj = im.trainers[idx].add_monitor(cname, pname, attr, ctor, unique, k=k, g=g)
+    mon, how = w.add_monitor(idx, cname, pname, source, "pass", {"dt": DT}, k + 1, unique,
+                             {"k": k, "g": g, "attr": attr}, layer=LOC[e.cellkey[0]][0])
+    if how != "existing":
+        ctx.probe_spec[(idx, cname, pname)] = (post, k, g)
+    with impl(ctx.what):
+        got = im.trainers[idx].get_monitor(cname, pname)
+    check(obj is got, "listing:get_monitor", lambda: f"{ctx.what}: add_monitor returned an object that is not get_monitor()", ctx)
+    if hold:
+        im.held[(idx, cname, pname, mon.uid)] = obj
+
+
+def _set_tmode(ctx, idx, mode, via_train=True):
+    w, im = ctx.world, ctx.impl
+    ctx.last = "tmode"
+    if mode != w.trainers[idx].training:
+        ctx.stats["mode_switch"] += 1
+    with impl(ctx.what):
+        r = im.trainers[idx].train(mode) if (mode or via_train) else im.trainers[idx].eval()
+    check(r is im.trainers[idx], "mode:return", lambda: f"{ctx.what}: train()/eval() did not return the trainer", ctx)
+    w.set_trainer_mode(idx, mode)
+
+
+def _try_register(ctx, idx, key, hp):
+    """register_cell unless it would enter the region of the shared-namespace known finding (excluded by
+    construction in most cases)."""
+    tm = ctx.world.trainers[idx]
+    ctx.last = "reg"
+    names = {s["name"] for s in M.trainer_monitors(tm.ttype, hp, DT, key[0], key[1])}
+    if not ctx.case["allow_shadow"] and _would_shadow(ctx, idx, key, names):
+        ctx.stats["shadow_skipped"] += 1
+        return False
+    _register(ctx, idx, key, hp)
+    return True
+
+
 def _apply(ctx: Ctx, op):
     w, im, case = ctx.world, ctx.impl, ctx.case
     name = op[0]
+    ctx.last = name
     cells = CELLS[case["topo"]]
     live = sorted(w.trainers)
     st_ = ctx.stats
@@ -408,11 +494,7 @@ def _apply(ctx: Ctx, op):
             except Exception as e:  # noqa: BLE001
                 raise Violation("reject:wrongexc", f"{ctx.what}: {type(e).__name__}: {e}", ctx) from e
             raise Violation("reject:accepted", f"{ctx.what}: duplicate cell name accepted", ctx)
-        names = {s["name"] for s in M.trainer_monitors(tm.ttype, hp, DT, key[0], key[1])}
-        if not case["allow_shadow"] and _would_shadow(ctx, idx, key, names):
-            st_["shadow_skipped"] += 1
-            return
-        _register(ctx, idx, key, hp)
+        _try_register(ctx, idx, key, hp)
     elif name == "delc":
         idx = pick_trainer(op[1])
         if idx is None or not w.trainers[idx].cells:
@@ -428,52 +510,15 @@ def _apply(ctx: Ctx, op):
             return
         tm = w.trainers[idx]
         cname = sorted(tm.cells)[op[2] % len(tm.cells)]
-        before = w.flags["alias_del"]
-        w.flags["alias_del"] = False
-        with impl(ctx.what):
-            im.trainers[idx].del_cell(cname)
-        w.del_cell(idx, cname)
-        ctx.pending_del = True
-        ctx.pending_del_shared = ctx.pending_del_shared or w.flags["alias_del"]
-        w.flags["alias_del"] = w.flags["alias_del"] or before
+        _del_cell(ctx, idx, cname)
     elif name == "addm":
         idx = pick_trainer(op[1])
         if idx is None or not w.trainers[idx].cells:
             return
         tm = w.trainers[idx]
         cname = sorted(tm.cells)[op[2] % len(tm.cells)]
-        e = tm.cells[cname]
-        pname = PROBE_NAMES[op[3] % len(PROBE_NAMES)]
-        post = (op[4] % 3) != 0
-        attr = "neuron.spike" if post else im.pre_attr
-        source = ("n", e.cellkey[1]) if post else ("c", e.cellkey[0])
-        k = op[5] % 3
-        unique = (op[6] % 4) == 0
-        g = op[7] % 2
-        hold = (op[8] % 4) == 0
-        from inferno.observe import PassthroughReducer, StateMonitor
-
-        if unique and pname in e.mons:
-            # unique=True replaces the entry; the docs do not say that the replaced object is detached, and the
-            # property speaks about registered monitors only: the user does not keep holding a replaced object
-            # (whichever cell it was first obtained through), so nothing is asserted about it
-            old_uid = e.mons[pname].uid
-            for hk in [hk for hk in im.held if hk[3] == old_uid]:
-                del im.held[hk]
-            st_["unique_replace"] += 1
-        ctor = StateMonitor.partialconstructor(
-            reducer=PassthroughReducer(DT, duration=k * DT, inclusive=True),
-            as_prehook=False, train_update=True, eval_update=False, prepend=True)
-        with impl(ctx.what):
-            obj = im.trainers[idx].add_monitor(cname, pname, attr, ctor, unique, k=k, g=g)
-        mon, how = w.add_monitor(idx, cname, pname, source, "pass", {"dt": DT}, k + 1, unique,
-                                 {"k": k, "g": g, "attr": attr}, layer=LOC[e.cellkey[0]][0])
-        with impl(ctx.what):
-            got = im.trainers[idx].get_monitor(cname, pname)
-        check(obj is got, "listing:get_monitor", lambda: f"{ctx.what}: add_monitor returned an object that is not get_monitor()", ctx)
-        if hold:
-            im.held[(idx, cname, pname, mon.uid)] = obj
-        del obj, got
+        _add_probe(ctx, idx, cname, PROBE_NAMES[op[3] % len(PROBE_NAMES)], (op[4] % 3) != 0, op[5] % 3,
+                   (op[6] % 4) == 0, op[7] % 2, (op[8] % 4) == 0)
     elif name == "delm":
         idx = pick_trainer(op[1])
         if idx is None:
@@ -492,25 +537,12 @@ def _apply(ctx: Ctx, op):
                 raise Violation("reject:accepted", f"{ctx.what}: del_monitor of unknown monitor accepted", ctx)
             return
         cname, pname = probes[op[2] % len(probes)]
-        before = w.flags["alias_del"]
-        w.flags["alias_del"] = False
-        with impl(ctx.what):
-            im.trainers[idx].del_monitor(cname, pname)
-        w.del_monitor(idx, cname, pname)
-        ctx.pending_del = True
-        ctx.pending_del_shared = ctx.pending_del_shared or w.flags["alias_del"]
-        w.flags["alias_del"] = w.flags["alias_del"] or before
+        _del_mon(ctx, idx, cname, pname)
     elif name == "tmode":
         idx = pick_trainer(op[1])
         if idx is None:
             return
-        mode = (op[2] % 3) != 0
-        if mode != w.trainers[idx].training:
-            st_["mode_switch"] += 1
-        with impl(ctx.what):
-            r = im.trainers[idx].train(mode) if (mode or op[3] % 2) else im.trainers[idx].eval()
-        check(r is im.trainers[idx], "mode:return", lambda: f"{ctx.what}: train()/eval() did not return the trainer", ctx)
-        w.set_trainer_mode(idx, mode)
+        _set_tmode(ctx, idx, (op[2] % 3) != 0, bool(op[3] % 2))
     elif name == "lmode":
         mode = (op[1] % 3) != 0
         lname = list(im.layers)[(op[1] // 3) % len(im.layers)]
@@ -565,6 +597,93 @@ def _apply(ctx: Ctx, op):
         im.held.clear()
         gc.collect()
         _check_collected(ctx)
+    elif name == "empty":
+        # del_monitor on EVERY monitor of one still-registered cell (trainer-owned ones and probes), step, then
+        # add_monitor on that same cell again, step; optionally restore the cell by del_cell + register_cell
+        idx = pick_trainer(op[1])
+        if idx is None or not w.trainers[idx].cells:
+            return
+        tm = w.trainers[idx]
+        cname = sorted(tm.cells)[op[2] % len(tm.cells)]
+        e = tm.cells[cname]
+        for mname in reversed(list(e.mons)):
+            _del_mon(ctx, idx, cname, mname)
+            _compare(ctx)
+        _step(ctx, op[3])
+        _compare(ctx)
+        _add_probe(ctx, idx, cname, PROBE_NAMES[op[4] % len(PROBE_NAMES)], (op[5] % 3) != 0, op[6] % 3, False, op[7] % 2, False)
+        _compare(ctx)
+        _step(ctx, op[3] ^ 0x155)
+        st_["empty_add"] += 1
+        if op[8] % 2:
+            _compare(ctx)
+            key, hp = e.cellkey, e.hp
+            _del_cell(ctx, idx, cname)
+            _compare(ctx)
+            if _try_register(ctx, idx, key, hp):
+                _compare(ctx)
+                _step(ctx, op[3] ^ 0x2AA)
+    elif name == "rereg":
+        # del_cell -> register_cell of the same cell under the same name
+        idx = pick_trainer(op[1])
+        if idx is None or not w.trainers[idx].cells:
+            return
+        tm = w.trainers[idx]
+        cname = sorted(tm.cells)[op[2] % len(tm.cells)]
+        key = tm.cells[cname].cellkey
+        _del_cell(ctx, idx, cname)
+        _compare(ctx)
+        if op[4] % 2:
+            _step(ctx, op[5])
+            _compare(ctx)
+        if _try_register(ctx, idx, key, op[3] % len(M.HP)):
+            _compare(ctx)
+            _step(ctx, op[5] ^ 0x155)
+            st_["rereg"] += 1
+    elif name == "readd":
+        # del_monitor -> add_monitor of the same name / attribute / tags on the same cell
+        idx = pick_trainer(op[1])
+        if idx is None:
+            return
+        tm = w.trainers[idx]
+        probes = [(c, n) for c, e in sorted(tm.cells.items()) for n in sorted(e.mons) if n in PROBE_NAMES]
+        if not probes:
+            return
+        cname, pname = probes[op[2] % len(probes)]
+        post, k, g = ctx.probe_spec[(idx, cname, pname)]
+        _del_mon(ctx, idx, cname, pname)
+        _compare(ctx)
+        if op[3] % 2:
+            _step(ctx, op[4])
+            _compare(ctx)
+        _add_probe(ctx, idx, cname, pname, post, k, False, g, False)
+        _compare(ctx)
+        _step(ctx, op[4] ^ 0x155)
+        st_["readd"] += 1
+    elif name == "evaladd":
+        # trainer.eval() -> add_monitor / register_cell while in eval -> step -> train() -> step
+        idx = pick_trainer(op[1])
+        if idx is None:
+            return
+        tm = w.trainers[idx]
+        _set_tmode(ctx, idx, False, bool(op[2] % 2))
+        _compare(ctx)
+        key = cells[op[3] % len(cells)]
+        did = False
+        if _cname(key) not in tm.cells and (op[4] % 2 or not tm.cells):
+            did = _try_register(ctx, idx, key, op[5] % len(M.HP))
+        elif tm.cells:
+            cname = sorted(tm.cells)[op[3] % len(tm.cells)]
+            _add_probe(ctx, idx, cname, PROBE_NAMES[op[6] % len(PROBE_NAMES)], (op[7] % 3) != 0, op[8] % 3, False, op[9] % 2, False)
+            did = True
+        _compare(ctx)
+        _step(ctx, op[10])
+        _compare(ctx)
+        _set_tmode(ctx, idx, True)
+        _compare(ctx)
+        _step(ctx, op[10] ^ 0x155)
+        if did:
+            st_["eval_add"] += 1
     else:
         raise ValueError(name)
 
@@ -572,6 +691,7 @@ def _apply(ctx: Ctx, op):
 def _step(ctx: Ctx, bits):
     """One network step: every layer is stepped once (layer k with its own scripted data)."""
     w, im, case = ctx.world, ctx.impl, ctx.case
+    ctx.last = "step"
     B = case["B"]
     nobs = 0
 
@@ -643,9 +763,10 @@ def _trainer_step(ctx: Ctx, idx, sig):
     if idx is None:
         return
     tm = w.trainers[idx]
-    if not tm.cells or any(not m.states for m in tm.objects()):
+    if not tm.cells or any(not m.states for m in tm.objects()) or any(not e.required <= set(e.mons) for e in tm.cells.values()):
         ctx.stats["skipped"] += 1
-        return  # docs: to be called after every trainable batch — nothing recorded yet
+        return  # docs: to be called after every trainable batch — nothing recorded yet; or the user deleted a
+        # monitor the trainer needs (user error, trainer() is then not called)
     before = _acc_state(im)
     tr = im.trainers[idx]
     signal = [1.0, -1.0, 0.5][sig % 3]
@@ -773,7 +894,7 @@ def run_lifecycle(case):
     s = ctx.stats
     cls = [f"topo={case['topo']}", "trainers=" + "+".join(case["trainers"])]
     for k in ("late_join", "del_then_train", "del_shared_then_train", "two_on_cell", "tstep", "tstep_value",
-              "dropped", "gc_checked", "unique_replace", "clears", "updates", "mode_switch", "shadow_skipped", "alias_now"):
+              "dropped", "gc_checked", "unique_replace", "clears", "updates", "empty_add", "rereg", "readd", "eval_add", "mode_switch", "shadow_skipped", "alias_now"):
         if s[k]:
             cls.append(k)
     nt = bool(s["alias_now"] and s["del_then_train"] and s["mode_switch"] and s["train_steps"] >= 2)
@@ -807,11 +928,15 @@ def _op():
         (1, st.tuples(st.just("drop"), r)),
         (1, st.tuples(st.just("newtr"), r)),
         (1, st.tuples(st.just("gc"))),
+        (1, st.tuples(st.just("empty"), r, r, _bits, r, r, r, r, r)),
+        (1, st.tuples(st.just("rereg"), r, r, hp, r, _bits)),
+        (1, st.tuples(st.just("readd"), r, r, r, _bits)),
+        (1, st.tuples(st.just("evaladd"), r, r, r, r, hp, r, r, r, r, _bits)),
     ]
     return st.one_of(*[s_ for w_, s_ in weighted for _ in range(w_)]).map(list)
 
 
-_STRUCT = {"reg", "delc", "addm", "delm", "tmode", "lmode", "clear", "drop", "newtr"}
+_STRUCT = {"reg", "delc", "addm", "delm", "tmode", "lmode", "clear", "drop", "newtr"}  # macros step themselves
 
 
 @st.composite
@@ -864,6 +989,16 @@ def lifecycle_case(draw, tier="quick"):
             blocks.append([["tmode", t, 0, 0], ["step", bits()], ["tmode", t, 1, draw(_raw)], ["step", bits()]])
         else:
             blocks.append([["lmode", 0], ["step", bits()], ["lmode", 1], ["step", bits()]])
+    # undo-then-redo pairs of every structural op (each macro steps in between and afterwards)
+    if chance(3):
+        blocks.append([["empty", t0, draw(_raw), bits(), draw(_raw), draw(_raw), draw(_raw), draw(_raw), draw(_raw)]])
+    if chance(3):
+        blocks.append([["rereg", t0, draw(_raw), draw(st.sampled_from([0, 0, 1, 2])), draw(_raw), bits()]])
+    if probes and chance(5):
+        blocks.append([["readd", t0, draw(_raw), draw(_raw), bits()]])
+    if chance(3):
+        blocks.append([["evaladd", draw(st.integers(0, 1)), draw(_raw), draw(_raw), draw(_raw), draw(st.sampled_from([0, 0, 1, 2])),
+                        draw(_raw), draw(_raw), draw(_raw), draw(_raw), bits()]])
     follow = chance(8)
     out = []
     for op in body:
